@@ -296,6 +296,19 @@ def _own_lt(self, other):
 _counter = itertools.count()
 
 
+class EqMeta(type):
+    """A metaclass under which all classes compare equal: only an identity test
+    (`is`) tells them apart."""
+
+    def __eq__(cls, other):
+        return True
+
+    def __ne__(cls, other):
+        return False
+
+    __hash__ = type.__hash__
+
+
 def build_class(spec, base):
     body = {}
     for n, c, e, o in spec["own"]:
@@ -306,7 +319,8 @@ def build_class(spec, base):
         body["__lt__"] = _own_lt
     if spec.get("annot"):
         body["__annotations__"] = {n: int for n, _c, _e, _o in spec["own"]}
-    cls = type("K%d" % next(_counter), (base,) if base is not None else (), body)
+    mk = EqMeta if spec.get("meta") else type
+    cls = mk("K%d" % next(_counter), (base,) if base is not None else (), body)
     kw = {}
     for k in ("cmp", "eq", "order"):
         if spec.get(k) is not None:
@@ -713,6 +727,8 @@ def chain_cases(rng, tier):
             rng.shuffle(own)
             names_so_far += new
             specs.append(rand_layer(rng, own, p_noeq=0.3 if d else 0.15, p_err=0.03))
+        if rng.random() < 0.3:
+            specs[0]["meta"] = True      # inherited by the whole chain
         inp = {"chain": specs, "script": {}, "items": []}
         # sizes of the complete field lists are not known before building; probe with
         # generous vectors (extra values are ignored by zip / combine)
